@@ -12,6 +12,7 @@ import Micm.Model.History
 import Micm.Model.FlatKernels2
 import Micm.Model.FlatKernels3
 import Micm.Model.Errors
+import Micm.Model.JitProg
 namespace Micm.Driver
 open Micm
 
@@ -830,6 +831,47 @@ def cpAssignCase : P String := do
   let b'' := match b'.setConcentration s!"s{j}" newv with | .ok st => st | .error _ => b'
   pure s!"cpassign cons=1 byname={showFs (byName b')} rev={showFs (byName a2)} after_a={showFs (byName a)} after_b={showFs (byName b'')} solve_same=1"
 
+/-! generated programs in a canonical text form (compared with the IR the implementation emits) -/
+def showLoc : JLoc → String
+  | .arg a off => s!"a{a}[i+{off}]"
+  | .buf => "buf[i]"
+def showExpr : JExpr Float → String
+  | .ld l => showLoc l
+  | .const c => s!"c{showF c}"
+  | .scalar => "v1"
+  | .mul a b => s!"mul({showExpr a},{showExpr b})"
+  | .add a b => s!"add({showExpr a},{showExpr b})"
+  | .sub a b => s!"sub({showExpr a},{showExpr b})"
+  | .div a b => s!"div({showExpr a},{showExpr b})"
+def showProg (p : JProg Float) : String := ";".intercalate (p.map fun lp => s!"{showLoc lp.dst}={showExpr lp.e}")
+
+def listP {β} (p : P β) : P (List β) := do let n ← nat; many n p
+
+def jitProgCase : P String := do
+  let kind ← tok
+  let L ← nat
+  match kind with
+  | "forcing" => do
+    let nReact ← listP nat; let nProd ← listP nat; let rids ← listP nat; let pids ← listP nat; let ylds ← listP flt
+    let t : PSTables Float := { nReact := nReact, nProd := nProd, reactIds := rids, prodIds := pids, yields := ylds }
+    pure s!"jitprog forcing L={L} prog={showProg (t.genForcing L)}"
+  | "jacobian" => do
+    let infos ← listP do let pid ← nat; let nd ← nat; let np ← nat; pure ({ pid := pid, ind := 0, nDep := nd, nProd := np } : ProcessInfo)
+    let jr ← listP nat; let jy ← listP flt; let flat ← listP nat
+    let t : PSTables Float := { jInfo := infos, jReactIds := jr, jYields := jy }
+    pure s!"jitprog jacobian L={L} prog={showProg (t.genJacobian flat L)}"
+  | "lu" | "solve" | "alpha" => do
+    let n ← nat; let ne ← nat
+    let es ← pairsP ne
+    let jac := Pattern.mk' n false L (setOfList es)
+    let la := LinAlg.build .doolittle jac
+    let prog : JProg Float := match kind with
+      | "lu" => genDoolittle L la.dRows
+      | "solve" => genSolve L la.fw la.bw
+      | _ => genAlpha L jac.diagRanks
+    pure s!"jitprog {kind} L={L} prog={showProg prog}"
+  | _ => pure "bad-op"
+
 def runLine2 (line : String) : String :=
   let toks := (line.trimAscii.toString.splitOn " ").filter (· != "")
   match toks with
@@ -840,6 +882,7 @@ def runLine2 (line : String) : String :=
     | "markowitz" => (markowitzCase.run rest).1
     | "rates" => (ratesCase.run rest).1
     | "cpassign" => (cpAssignCase.run rest).1
+    | "jitprog" => (jitProgCase.run rest).1
     | "hist" => (histCase.run rest).1
     | "forcingflat" => (forcingFlatCase.run rest).1
     | "norm" => (normCase.run rest).1
